@@ -573,6 +573,9 @@ class ExprMixin:
                 out.append(Res(ok, val))
             if self.feasible(bad): out.append(Res(bad, None, "raise", "KeyError"))
             return out
+        kk = self.reg.lookup2(ty, "__getitem__", self.functions, self.reg.contracts) if ty else None
+        if kk:
+            return self.call_function(st, kk, [c, k], {}, lineno, recv_ty=ty)
         raise Unsupported(f"subscript on {c.ty} at line {lineno}")
 
     def ev_slice(self, st, n):
